@@ -332,6 +332,21 @@ pub fn gen_expr(rng: &mut Rng, s: &Schema, ty: &Ty, depth: u32, cfg: &ExprCfg) -
             8 => { let t = random_ty(rng); E::Is(rng.chance(1, 2), b(g!(t.clone())), b(g!(t))) }
             9 | 10 => {
                 let t = match rng.below(4) { 0 => Ty::Text, 1 => Ty::Real, _ => Ty::Int };
+                // long lists of plain literals (where an implementation might switch from element-wise comparison to a lookup): 9-24
+                // non-negative literals of the operand's type or of the other numeric type, TEXT literals against a TIMESTAMP
+                // operand, and - where ill-typed expressions are wanted - TEXT literals against a number
+                if rng.chance(1, 4) {
+                    let n = 9 + rng.below(16);
+                    let (ot, lt) = match rng.below(8) { 0 | 1 => (Ty::Int, Ty::Int), 2 => (Ty::Int, Ty::Real), 3 | 4 => (Ty::Real, Ty::Int), 5 => (Ty::Real, Ty::Real), 6 => (Ty::Ts, Ty::Text), _ => (Ty::Text, Ty::Text) };
+                    let lt = if cfg.ill_typed > 0 && ot != Ty::Text && ot != Ty::Ts && rng.chance(1, 6) { Ty::Text } else { lt };
+                    let vs: Vec<E> = (0..n).map(|_| match (&ot, &lt) {
+                        (Ty::Ts, _) => text(*rng.pick(TS_POOL)),
+                        (_, Ty::Int) => E::Int(rng.below(13) as u64),
+                        (_, Ty::Real) => real(rng.below(41) as f64 / 8.0),
+                        _ => text(*rng.pick(TEXT_POOL)),
+                    }).collect();
+                    return E::In(rng.chance(1, 2), b(g!(ot)), vs);
+                }
                 let n = if cfg.single_in && rng.chance(1, 3) { 1 } else { 2 + rng.below(3) };
                 let mut vs: Vec<E> = (0..n).map(|_| g!(t.clone())).collect();
                 if rng.chance(1, 5) { let at = rng.below(vs.len()); vs[at] = E::Null; }
